@@ -654,8 +654,8 @@ func (e vfEtcdEntry) kind() string {
 	return "key-only"
 }
 
-// vfEtcdSupervisor builds a supervisor whose (mocked) cluster holds the entries.
-func vfEtcdSupervisor(prefix string, entries []vfEtcdEntry, salt []byte) (*supervisor.Supervisor, string, error) {
+// vfEtcdKVs renders the entries as the cluster's key/value pairs under the prefix.
+func vfEtcdKVs(prefix string, entries []vfEtcdEntry, salt []byte) (map[string]string, string, error) {
 	kvs := map[string]string{}
 	var dump strings.Builder
 	for _, e := range entries {
@@ -678,6 +678,19 @@ func vfEtcdSupervisor(prefix string, entries []vfEtcdEntry, salt []byte) (*super
 		kvs[k] = string(yb)
 		fmt.Fprintf(&dump, "%s => {key: %q, username: %q, password(clear): %q %s}\n", k, e.Key, e.Username, e.User.Pass, e.User.Scheme)
 	}
+	if len(entries) == 0 {
+		dump.WriteString("(no entry under the prefix)\n")
+	}
+	return kvs, dump.String(), nil
+}
+
+// vfEtcdSupervisor builds a supervisor whose (mocked) cluster holds the entries. The returned
+// channel is the syncer's: every value sent is the full state of the prefix after a change.
+func vfEtcdSupervisor(prefix string, entries []vfEtcdEntry, salt []byte) (*supervisor.Supervisor, string, chan map[string]string, error) {
+	kvs, dump, err := vfEtcdKVs(prefix, entries, salt)
+	if err != nil {
+		return nil, "", nil, err
+	}
 	cls := clustertest.NewMockedCluster()
 	cls.MockedGetPrefix = func(string) (map[string]string, error) { return kvs, nil }
 	syncer := clustertest.NewMockedSyncer()
@@ -685,7 +698,7 @@ func vfEtcdSupervisor(prefix string, entries []vfEtcdEntry, salt []byte) (*super
 	syncer.MockedSyncPrefix = func(string) (<-chan map[string]string, error) { return ch, nil }
 	cls.MockedSyncer = func(time.Duration) (cluster.Syncer, error) { return syncer, nil }
 	var m sync.Map
-	return supervisor.NewMock(nil, cls, m, m, nil, nil, false, nil, nil), dump.String(), nil
+	return supervisor.NewMock(nil, cls, m, m, nil, nil, false, nil, nil), dump, ch, nil
 }
 
 // vfBasicVerdict: accepted <=> (user, password) equals a configured pair exactly; the
